@@ -31,6 +31,8 @@ def main():
   ap.add_argument('--tier', default='quick')
   ap.add_argument('--skip-baseline', action='store_true')
   ap.add_argument('--props')
+  ap.add_argument('--only-confirm', action='store_true')
+  ap.add_argument('--only-check', action='store_true')
   a = ap.parse_args()
   name = a.name or a.prop
   out = os.path.join(ROOT, 'seeded', name)
@@ -52,6 +54,8 @@ def main():
       open(os.path.join(out, f), 'w').write(txt)
   meta = {'property': a.prop, 'name': name, 'ran': []}
   # --- confirm in a fresh scratch worktree
+  if a.only_check:
+    return run_checks(a, out, meta)
   os.makedirs(SHIM, exist_ok=True)
   if not os.path.exists(os.path.join(SHIM, 'jaxcompat.py')):
     shutil.copy(os.path.join(ROOT, 'harness', 'jaxcompat.py'), SHIM)
@@ -92,7 +96,12 @@ def main():
             f'stable tests no longer pass ({time.time() - t0:.0f}s)')
   finally:
     sh(f'git -C /repo worktree remove --force {scratch}')
-  # --- run the checks against the patched /repo
+  if a.only_confirm:
+    return save_meta(out, meta)
+  return run_checks(a, out, meta)
+
+
+def run_checks(a, out, meta):
   rc, o = sh('git -C /repo status --short')
   assert not o.strip(), f'/repo not clean: {o}'
   rc, o = sh(f'git -C /repo apply {os.path.join(out, "patch.diff")}')
@@ -113,15 +122,20 @@ def main():
         print('   ', l[:300])
   finally:
     sh('git -C /repo checkout -- .')
+  return save_meta(out, meta)
+
+
+def save_meta(out, meta):
   old = {}
   mp = os.path.join(out, 'meta.json')
   if os.path.exists(mp):
     old = json.load(open(mp))
     meta['ran'] = old.get('ran', []) + meta['ran']
-    for k in ('needs', 'summary'):
-      if k in old:
-        meta[k] = old[k]
+    for k, v in old.items():
+      if k not in meta:
+        meta[k] = v
   json.dump(meta, open(mp, 'w'), indent=1)
+
 
 
 if __name__ == '__main__':
